@@ -293,11 +293,24 @@ func ZZ_C15_percent() {
 	if pct > 0 {
 		want = (pct*nNodes + 99) / 100
 	}
-	c, _ := zzCanaryStore(nNodes, replicas, -1)
+	c, ds := zzCanaryStore(nNodes, replicas, -1)
+	// the canary node selector narrows where canary nodes may be picked, not what a percentage is
+	// resolved against ("the number of nodes the ExtendedDaemonSet targets"): here all but the
+	// last node carry the label it asks for
+	candidates := nNodes
+	if nondet.Bool("canaryNodeSelectorExcludesLastNode") {
+		ds.Spec.Strategy.Canary.NodeSelector = &metav1.LabelSelector{MatchLabels: map[string]string{"canary": "yes"}}
+		for i, n := range c.Nodes {
+			if i < nNodes-1 {
+				n.Labels = map[string]string{"canary": "yes"}
+			}
+		}
+		candidates = nNodes - 1
+	}
 	_, err := zzReconcile(zzReconciler(c), "ns", "foo")
 	st := zzStoredEDS(c, "ns", "foo")
 	nondet.Fact("percent", pct > 0)
-	if want > nNodes {
+	if want > candidates {
 		nondet.Assert("C15.percent.error-when-too-few", err != nil)
 		return
 	}
